@@ -70,7 +70,8 @@ let line_of (l : string) : string =
        | M.Err _ -> "Q other" | M.Panic -> "Q PANIC" | M.Fuel -> "Q FUEL")
   | ["G"; k; ps] ->
       let j = pairs ps in
-      let f = (match k with "L" -> M.gen_licenses_file j | "D" -> M.gen_deprecated_file j | _ -> M.gen_exceptions_file j) in
+      let f = (match k with "L" -> M.gen_licenses_file M.tpl_licenses j | "D" -> M.gen_deprecated_file M.tpl_deprecated j
+                            | _ -> M.gen_exceptions_file M.tpl_exceptions j) in
       "G " ^ hex (ocaml_of_coq_string f)
   | _ -> "? " ^ l
 
